@@ -14,7 +14,7 @@
       re-groups, which may move entries between blocks (the reference of group()).
     - Order-changing operations are characterised exactly: reverse, sort (a permutation of the
       blocks, ordered by number; modelled for pairwise distinct numbers), pop, insert.
-    - re-parse ([C17_reparse]) is proved outright for Acls of remarks and reader-built ACEs.
+    - platform ([C17_platform]) and re-parse ([C17_reparse]) are proved outright for Acls of remarks and reader-built ACEs.
     - group() depends on the rule list only, not on identifiers, notes or the history
       ([C17_group_erase]): the buckets of the erased entries are the erased buckets.
     - History independence: [Ops.step] is a function of the modelled state; what is not visible
@@ -24,7 +24,8 @@
     delete_shadow is owned by C04 (certificate there); here it is covered by correspondence and
     by the reference prediction of the oracle. *)
 From V Require Import base.Prelude spec.AceSem spec.AclSem model.Cfg model.AceText model.AclText model.Shading
-  model.Ops proofs.DeleteShadowProofs proofs.PlatformProofs proofs.OpsProofs proofs.HistoryProofs proofs.AclFixProofs proofs.ReparseProofs.
+  model.Ops proofs.DeleteShadowProofs proofs.PlatformProofs proofs.OpsProofs proofs.HistoryProofs proofs.AclFixProofs proofs.ReparseProofs proofs.ConvSplitProofs proofs.PlatformOpProofs proofs.OpsBuiltProofs proofs.ClassCheck.
+From V Require Import model.Platform.
 From Coq Require Import Permutation Sorting.Sorted.
 Local Open Scope N_scope.
 
@@ -81,7 +82,7 @@ Proof. exact regroup_keeps. Qed.
     same entries in the same order, prints the same lines and decides every packet alike *)
 Theorem C17_reparse : forall a,
   (plat (o_cfg a) = Ios \/ plat (o_cfg a) = Nxos) ->
-  Forall (fun l => item_built (o_cfg a) (leaf_aitem l)) (flat (o_tops a)) ->
+  Forall (fun l => AclFixProofs.item_built (o_cfg a) (leaf_aitem l)) (flat (o_tops a)) ->
   exists a', op_reparse a = Ok a'
     /\ o_cfg a' = o_cfg a /\ o_name a' = o_name a /\ o_gby a' = ""%string
     /\ map leaf_aitem (flat (o_tops a')) = map leaf_aitem (flat (o_tops a))
@@ -89,6 +90,63 @@ Theorem C17_reparse : forall a,
     /\ acl_lines a' = acl_lines a
     /\ forall k, acl_decide a' k = acl_decide a k.
 Proof. exact reparse_built. Qed.
+
+
+(** Acl.platform = p needs no certificate on a flat Acl of reader-built entries ([item_src], C02:
+    any port expression except multi-operand neq): the operation of the model is the list
+    conversion of C02 on the entries ([C17_platform_is_conversion], for every flat Acl), hence it
+    succeeds and keeps the decision of every packet ([C17_platform]) *)
+Theorem C17_platform_is_conversion : forall a p ls conv,
+  o_gby a = ""%string -> o_tops a = map TLeaf ls ->
+  acl_set_platform (o_cfg a) (with_plat (o_cfg a) p) (map leaf_aitem ls) = Ok conv ->
+  exists a' ls', op_platform p a = Ok a' /\ o_tops a' = map TLeaf ls' /\ map leaf_aitem ls' = conv
+                 /\ o_cfg a' = with_plat (o_cfg a) p /\ o_gby a' = ""%string /\ o_name a' = o_name a
+                 /\ o_id a' = o_id a /\ o_note a' = o_note a.
+Proof. exact platform_flat_sim. Qed.
+
+Theorem C17_platform : forall mem a p ls,
+  (plat (o_cfg a) = Ios \/ plat (o_cfg a) = Nxos) -> (p = Ios \/ p = Nxos) ->
+  o_gby a = ""%string -> o_tops a = map TLeaf ls ->
+  Forall (fun l => item_src mem (o_cfg a) (leaf_aitem l)) ls ->
+  exists a', op_platform p a = Ok a' /\ o_gby a' = ""%string /\ plat (o_cfg a') = p
+             /\ forall k, acl_decide a' k = acl_decide a k.
+Proof. exact platform_op_built. Qed.
+
+
+(** ** histories of ANY length, without certificates
+    [acl_built]: a flat IOS / NX-OS Acl whose entries are remarks (blank-joined tokens) and
+    extended ACEs built by the readers of its platform (single addresses or address-group
+    references without attached members), any port expression except neq with several operands
+    (finding N5).
+    The class is closed under every meaning-preserving operation of the model ([op_ok]: platform
+    to IOS / NX-OS, port_nr, protocol_nr, type, resequence, ungroup, copy, export/import,
+    re-parse, ungroup_ports); each keeps the decision of every packet ([C17_step]); so does
+    every history over them, of any length ([C17_history]); and no operation of the class fails
+    on it, except resequence with invalid arguments ([C17_history_progress]). *)
+Theorem C17_step : forall a o a', acl_built a -> op_ok o -> Ops.step a o = Ok a' ->
+  acl_built a' /\ forall k, acl_decide a' k = acl_decide a k.
+Proof. exact step_built. Qed.
+
+Theorem C17_history : forall ops a a', acl_built a -> Forall op_ok ops -> steps a ops = Ok a' ->
+  acl_built a' /\ forall k, acl_decide a' k = acl_decide a k.
+Proof. exact history_built. Qed.
+
+Theorem C17_history_progress : forall ops a, acl_built a -> Forall op_ok ops ->
+  (forall o s d, In o ops -> o <> OpResequence s d) -> exists a', steps a ops = Ok a'.
+Proof. exact history_progress. Qed.
+
+
+(** the class is decidable enough to be counted: [acl_builtb] is a sound boolean checker, and the
+    history theorem in checked form is what the check evaluates on every explored history
+    ([run.RunOps.history_in_class]; the count is written into the evidence).  The history here is
+    the one the correspondence runs: fresh objects are named after every step. *)
+Theorem C17_class_checker : forall a, acl_builtb a = true -> acl_built a.
+Proof. exact acl_builtb_ok. Qed.
+
+Theorem C17_history_checked : forall next a ops a',
+  acl_builtb a = true -> forallb op_okb ops = true -> steps_labelled next a ops = Ok a' ->
+  forall k, acl_decide a' k = acl_decide a k.
+Proof. exact history_checked. Qed.
 
 (** non-vacuity: a seven-step history of meaning-preserving operations on an IOS list with a
     two-port entry passes every certificate, so the theorem applies to it *)
@@ -108,3 +166,35 @@ Example C17_nonvacuous :
   C17_demo = Some ["ip access-list extended A"; "100 remark r"; "110 permit tcp any host 10.0.0.1 eq 80 log";
                    "120 permit tcp any host 10.0.0.1 eq 443 log"; "130 deny udp any any range 5 6"; "140 deny 0 any any"].
 Proof. vm_compute. reflexivity. Qed.
+
+(** non-vacuity of [C17_history]: an Acl of the class (a remark and a two-port 'eq' entry) and an
+    eight-step history over it; the theorem applies to it *)
+From V Require Import model.Addr model.Ports model.Ace proofs.SplitterProofs proofs.AddrObjProofs.
+Ltac tok := split; [vm_compute; reflexivity|vm_compute; discriminate].
+Ltac toks := repeat (first [apply Forall_nil | apply Forall_cons; [tok|]]).
+Ltac afs := repeat (first [apply Forall_nil | apply Forall_cons; [vm_compute; reflexivity|]]).
+Definition c17_any : addr := Eval vm_compute in match addr_of_spelling Ios 16 SAny with Ok a => a | _ => AGroup "" [] end.
+Definition c17_host : addr := Eval vm_compute in match addr_of_spelling Ios 16 (SHost 167772161) with Ok a => a | _ => AGroup "" [] end.
+Definition c17_q2 : port := Eval vm_compute in match parse_port Ios (proto_ctx Ios false 6) ["eq"; "www"; "443"] with Ok p => p | _ => empty_port end.
+Definition c17_acl : acl :=
+  mkAcl (mkCfg Ios false false false 16%nat) "A" "" 1 0
+        (map TLeaf [LRem 2 0 0 "x y"; LAce 3 0 (mkTace true 0 (mkAce true 6 c17_any c17_host empty_port c17_q2 [] ["log"]) ["log"])]).
+Definition c17_ops : list op :=
+  [OpPlatform Nxos; OpResequence 10 10; OpPortNr true; OpCopy; OpPlatform Ios; OpReparse; OpUngroupPorts; OpProtocolNr true].
+Example C17_history_nonvacuous :
+  acl_built c17_acl /\ Forall op_ok c17_ops /\ acl_builtb c17_acl = true
+  /\ match steps c17_acl c17_ops with Ok a => acl_lines a | _ => [] end
+     = ["ip access-list extended A"; "10 remark x y"; "20 permit tcp any host 10.0.0.1 eq 80 log"; "30 permit tcp any host 10.0.0.1 eq 443 log"].
+Proof.
+  split; [|split; [unfold c17_ops; repeat (apply Forall_cons; [exact I|]); apply Forall_nil|split; vm_compute; reflexivity]].
+  split; [left; reflexivity|]. split; [reflexivity|]. eexists. split; [reflexivity|].
+  apply Forall_cons; [|apply Forall_cons; [|apply Forall_nil]].
+  - exists ["x"; "y"]. split; [discriminate|]. split; [toks|reflexivity].
+  - exists true, 6, 0, c17_any, c17_host, [], ["eq"; "www"; "443"], empty_port, c17_q2, ["log"], [], ["log"].
+    split; [reflexivity|]. split; [vm_compute; discriminate|].
+    split; [left; exists SAny; split; [exact I|]; split; [intros [_ [x Hx]]; discriminate|vm_compute; reflexivity]|].
+    split; [left; exists (SHost 167772161); split; [vm_compute; reflexivity|]; split; [intros [_ [x Hx]]; discriminate|vm_compute; reflexivity]|].
+    split; [split; [reflexivity|]; split; [reflexivity|left; discriminate]|].
+    split; [split; [vm_compute; reflexivity|]; split; [discriminate|left; intros H; vm_compute in H; discriminate H]|].
+    split; [toks|]. split; [afs|]. split; [vm_compute; reflexivity|]. split; vm_compute; reflexivity.
+Qed.
